@@ -11,6 +11,11 @@ NA = {
 }
 
 CHECKS = {
+    'C15': dict(
+        category='other', design_ref='DESIGN.md §5 C15',
+        technique='use/def rule on the parser remainder, API deny/require rules (nom float recognisers, chrono panicking operators), cast rules with interval analysis, unit table by constant propagation',
+        text='Decides: the unparsed remainder leads to an error; the number parser is a digit recogniser + str::parse, not one of nom\'s float parsers; duration arithmetic in the operator impls and the parser uses chrono checked_* with None -> error; the printer takes the magnitude by unsigned_abs with no sign-losing cast or overflowing multiplication; unit table and longest-match order; the float->int cast of a parsed term is range-guarded. Digit-exact Go rendering and the round trip are value-level and not decided.',
+        note='nom/chrono documented behaviour trusted for the named APIs'),
     'C12': dict(
         category='other', design_ref='DESIGN.md §5 C12',
         technique='abstract interpretation of the escape branch of both decoders for every ASCII escape character, compared with the specification table and with the lexer ATN (decoded from the generated source)',
